@@ -268,5 +268,7 @@ def install(ctx):
     for e in (PIPE_OUT, PIPE_IN, PROCESS, MESSAGE):
         ctx.env_class(e)
     ctx.extern_handlers["traceback.format_exc"] = lambda I, a, k, n: V.VStr("<traceback>")
+    ctx.extern_handlers.setdefault("anyio.create_memory_object_stream",
+                                   lambda I, a, k, n: V.VTuple([E.make_write_stream(I, "mem_s"), E.make_read_stream(I, "mem_r")]))
     ctx.extern_handlers["anyio.get_cancelled_exc_class"] = \
         lambda I, a, k, n: V.VCls(I.ctx.cls_named("CancelledError").cid)
